@@ -106,7 +106,16 @@ def run_hist(hist, H, choice):
             if o["op"] == "clone":
                 # a new tag built from the attribute map of the old one (the way wrappers forward `tag.attrs`)
                 left.append((t, proj_attrs(t, H)))
-                t = H.Tag("div", t.attrs) if (choice >> step) & 1 else H.Tag("span", t.attrs, "child")
+                way = (choice >> step) % 4
+                if way == 0:
+                    t = H.Tag(t.name, t.attrs)
+                elif way == 1:
+                    t = H.Tag(t.name, t.attrs, "child")
+                elif way == 2:
+                    import copy as _copy
+                    t = _copy.copy(t)           # (also when the tag has no attributes at all)
+                else:
+                    t = t.tagify()
             elif o["op"] == "new":
                 dicts, kw = split_dicts(o["items"], H, choice >> step)
                 try:
@@ -135,6 +144,8 @@ def run_hist(hist, H, choice):
             exc = "TypeError"
         except Exception as ex:  # noqa
             exc = type(ex).__name__
+        if (choice >> (step + 3)) & 1:
+            t.get_html_string()        # rendered in between (whatever a rendering remembers must not outlive a change)
         obs.append({"attrs": proj_attrs(t, H), "exc": exc,
                     "othersSame": all(proj_attrs(o_, H) == p0 for o_, p0 in left)})
     out = t.get_html_string()
